@@ -308,7 +308,45 @@ fn label(l: &Option<Label>) -> Value {
     opt(l.as_ref(), |l| Value::String(l.name.to_string()))
 }
 
+fn expr_attrs(e: &Expr) -> &[Attribute] {
+    match e {
+        Expr::Array(x) => &x.attrs,
+        Expr::Assign(x) => &x.attrs,
+        Expr::Binary(x) => &x.attrs,
+        Expr::Block(x) => &x.attrs,
+        Expr::Call(x) => &x.attrs,
+        Expr::ForLoop(x) => &x.attrs,
+        Expr::If(x) => &x.attrs,
+        Expr::Loop(x) => &x.attrs,
+        Expr::Macro(x) => &x.attrs,
+        Expr::Match(x) => &x.attrs,
+        Expr::MethodCall(x) => &x.attrs,
+        Expr::Unsafe(x) => &x.attrs,
+        Expr::While(x) => &x.attrs,
+        Expr::Return(x) => &x.attrs,
+        Expr::Struct(x) => &x.attrs,
+        Expr::Tuple(x) => &x.attrs,
+        Expr::Path(x) => &x.attrs,
+        _ => &[],
+    }
+}
+
 fn expr(e: &Expr) -> Value {
+    let v = expr_inner(e);
+    let a = expr_attrs(e);
+    if a.is_empty() {
+        return v;
+    }
+    match v {
+        Value::Object(mut m) => {
+            m.insert("attrs".into(), attrs(a));
+            Value::Object(m)
+        }
+        other => other,
+    }
+}
+
+fn expr_inner(e: &Expr) -> Value {
     let mut m;
     match e {
         Expr::Array(x) => {
